@@ -145,10 +145,10 @@ def c05(work, tier, seed):
     ev = "board,views"
     if tier == "quick":
         jobs = (mode_jobs("dance", seed, 10, 8, 0, "board", 900) + mode_jobs("prog", seed, 3, 5, 120, "board", 600)
-                + play_jobs(seed, 3, 6, 200, ev, 900))
+                + play_jobs(seed, 3, 6, 200, ev, 900) + mode_jobs("material", seed, 4, 40, 0, "board", 1200))
     else:
         jobs = (mode_jobs("dance", seed, 16, 300, 0, "board", 20000) + mode_jobs("prog", seed, 8, 100, 200, "board", 12000)
-                + play_jobs(seed, 8, 100, 300, ev, 15000))
+                + play_jobs(seed, 8, 100, 300, ev, 15000) + mode_jobs("material", seed, 16, 2000, 0, "board", 15000))
     board_traces(work, vh, rep, ["C05"], jobs)
     require(rep, ["draw:3-Fold Repetition", "draw:No progress", "draw:Insufficient Material",
                   "adjudicate:Checkmate", "push:KingSideCastle", "fork", "pop"], "C05")
@@ -202,10 +202,10 @@ def c14(work, tier, seed):
     ev = "views,board"
     if tier == "quick":
         jobs = (play_jobs(seed, 8, 8, 80, ev, 800) + mode_jobs("synthetic", seed, 2, 400, 0, "views")
-                + mode_jobs("dance", seed, 4, 5, 0, "board", 500))
+                + mode_jobs("dance", seed, 4, 5, 0, "board", 500) + mode_jobs("prog", seed, 4, 6, 120, "board", 600))
     else:
         jobs = (play_jobs(seed, 16, 300, 200, ev, 20000) + mode_jobs("synthetic", seed, 8, 8000, 0, "views")
-                + mode_jobs("dance", seed, 8, 200, 0, "board", 12000))
+                + mode_jobs("dance", seed, 8, 200, 0, "board", 12000) + mode_jobs("prog", seed, 8, 200, 200, "board", 12000))
     board_traces(work, vh, rep, ["C14"], jobs)
     require(rep, ["push:KingSideCastle", "push:EnPassant", "push:Jump", "push:Capture"], "C14")
     # spec -> impl direction: canonical strings (canonicity decided by Fen!Canonical in TLC) must be
